@@ -284,6 +284,25 @@ def bounded(rep, tier, seed, known):
         if len(log) != 4:
             fails.append({"id": f"call-count-macro|{runner.__name__}", "runner": runner.__name__, "cel": "[7, 7, 7].map(x, counted(x)).size() == 3 && counted(7) == 70",
                           "observed": f"{len(log)} calls", "expected": "4 calls (one per call site reached, per iteration)"})
+    # only the selected branch of ?: is reached; an argument that is an error is the outcome and the function is not invoked
+    def errfn(x):
+        return ev.CELEvalError("host says no")
+    for runner in (celpy.InterpretedRunner, celpy.CompiledRunner):
+        celpy.CELParser.CEL_PARSER = None
+        env = celpy.Environment(runner_class=runner)
+        counted = kinds["counting closure"][1]
+        for text, want_calls, label in (("true ? counted(3) : counted(4)", [3], "ternary-unselected-branch"), ("false ? counted(3) : counted(4)", [4], "ternary-unselected-branch"),
+                                        ("counted(errfn(1)) == 1 || true", [], "error-argument"), ("counted(1/0) == 1 || true", [], "raised-error-argument")):
+            del log[:]
+            n += 1
+            try:
+                got = env.program(env.compile(text), functions={"counted": counted, "errfn": errfn}).evaluate({})
+            except Exception as ex:
+                got = f"{type(ex).__name__}"
+            calls = [int(a[0]) if isinstance(a[0], int) else type(a[0]).__name__ for (_, a) in log]
+            if calls != want_calls:
+                fails.append({"id": f"{label}|{runner.__name__}|{text}", "runner": runner.__name__, "cel": text, "observed": f"host invoked with {calls}, result {got!r}",
+                              "expected": f"host invoked with {want_calls}", "label": label})
     celpy.CELParser.CEL_PARSER = None
     rep.bounded.append({"function": "every kind of callable x supplying style x call shape x both runners", "cases": n, "distinct_nontrivial": n,
                         "bound": "6 callables x {list, dict} x 6 program shapes x 2 runners", "failures": len(fails)})
@@ -293,6 +312,10 @@ def bounded(rep, tier, seed, known):
         o.status, o.backend = "refuted", "cpython"
         o.detail = "failing input: " + repr(f)[:400]
         o.replay = {"replayed": True, "confirmed": True, "inputs": f}
+        if f.get("label") == "ternary-unselected-branch" and f.get("runner") == "CompiledRunner" and "C14-compiled-evaluates-unselected-branch" in listed:
+            o.finding_id = "C14-compiled-evaluates-unselected-branch"
+        if f.get("label") == "error-argument" and f.get("runner") == "CompiledRunner" and "C14-compiled-error-argument" in listed:
+            o.finding_id = "C14-compiled-error-argument"
         if "C14-importable-module-function-compiled" in listed and f.get("runner") == "CompiledRunner" and \
                 f.get("callable") in ("module-level def", "counting closure"):
             o.finding_id = "C14-importable-module-function-compiled"
